@@ -213,6 +213,7 @@ mode_dt(void)
 			vd_desc("every day of %04d-%02d as all-day, 00:00:00, 23:59:59, 12:34:56.789, 00:00:00.000, 23:59:59.999 in %d text forms", y, m, NFORMS);
 			n_eval = n_nontriv = 0;
 			for (int d = 1; d <= cv_mdays(y, m); d++) {
+				vd_beat();
 				chk_instant(mk(y, m, d, ECHS_ALL_DAY, 0, 0, 0));
 				chk_instant(mk(y, m, d, 0, 0, 0, ECHS_ALL_SEC));
 				chk_instant(mk(y, m, d, 23, 59, 59, ECHS_ALL_SEC));
@@ -246,6 +247,7 @@ mode_dt_times(void)
 				alldays ? " as whole-second instants" : " x ms in {whole-second, 0,1,9,10,99,100,789,999}");
 			n_eval = n_nontriv = 0;
 			for (unsigned M = 0; M < 60; M++) {
+				vd_beat();
 				for (unsigned S = 0; S < 60; S++) {
 					for (int j = 0; j < (alldays ? 1 : 9); j++) {
 						chk_instant(mk(c.y, c.m, c.d, H, M, S, mss[j]));
@@ -334,6 +336,7 @@ mode_range(void)
 			for (int d = 1; d <= cv_mdays(y, m); d++) {
 				echs_instant_t vb[6], ve[6];
 				int64_t zb = cv_days_from_civil(y, m, d);
+				vd_beat();
 				variants(vb, y, m, d);
 				for (int k = 0; k < 5; k++) {
 					int64_t ze = k < 4 ? zb + off[k] : z1;
@@ -556,6 +559,7 @@ mode_dur_secs(void)
 		n_eval = n_nontriv = 0;
 		for (long T = blk; T < blk + 1000 && T <= max; T++) {
 			char s[64];
+			if (!(T & 63)) vd_beat();
 			int64_t v = (int64_t)T * 1000;
 			n_eval++;
 			n_nontriv += T != 0;
@@ -634,6 +638,7 @@ mode_dur_combo(void)
 				vd_desc("spellings P[%dW][%dD][T[%dH][mM][sS]] for every m,s in 0..61, zero parts written or left out, with and without +", w, d, h);
 				n_eval = n_nontriv = 0;
 				for (int m = 0; m <= 61; m++) {
+					vd_beat();
 					for (int s = 0; s <= 61; s++) {
 						const int val[5] = {w, d, h, m, s};
 						const int64_t v = ((((int64_t)w * 7 + d) * 24 + h) * 3600 + m * 60 + s) * 1000;
